@@ -11,8 +11,10 @@ import RichModel.Gen.TableBoxes
 First the arithmetic core ("ratio_distribute / ratio_reduce split integers so that the parts sum to the
 total", `_collapse_widths`), then the table itself (`Model/Table.lean`, cells as oracles — see
 `Model/TABLE_API.md`): rectangle, exact expansion, fitting the available width, row order, every cell inside
-its column's span.  `Flags.today` is rich 9.10.0 as it stands; the full-strength theorems are proved for the
-repaired variants and `old_…` witnesses show today's code violating them at a concrete table.
+its column's span.  `Flags.today` (the name dates from before the `fix:` commits) is rich 9.10.0 as found; the
+full-strength theorems are proved for the repaired variants and `old_…` witnesses show the as-found code violating
+them at a concrete table.  `Flags.repaired` repairs the first three defects (fixes dd342b5, c798468, b5d172f);
+`Flags.allRepaired` repairs all six (also 1d61bac, ab98098, f955c6c) and is what /repo contains now.
 -/
 namespace RichModel.C07
 open RichModel
@@ -158,7 +160,7 @@ theorem table_render_rect (fl : Flags) (hfl : fl.leadingRepeat = false) (t : Tab
         omega
     rw [this]
 
-/-! Witness for F16 (`leading ≥ 2` with a box): today's `_render` emits `get_row(widths, "mid") * leading`
+/-! Witness for F16 (`leading ≥ 2` with a box; before fix dd342b5): the as-found `_render` emits `get_row(widths, "mid") * leading`
 as ONE line, `leading` times too wide. -/
 
 def wBox : Box :=
@@ -174,7 +176,7 @@ def wTable : Table :=
                 { header := wCell ['b', 'b'], footer := wCell [], cells := [wCell ['3'], wCell ['4', '5', '6']] }],
     rowEndSection := [false, false], box := some wBox, leading := 2, padding := (0, 0, 0, 0) }
 
-/-- Today's code: the separator between the two rows is 14 cells wide in a 7-cell table. -/
+/-- rich 9.10.0 as found: the separator between the two rows is 14 cells wide in a 7-cell table. -/
 theorem old_table_rect_fails :
     ∃ l ∈ wTable.renderBody Flags.today (fun _ => 1) [1, 3], cellLen (fun _ => 1) l.text ≠ wTable.bodyWidth [1, 3] := by decide
 
@@ -187,7 +189,7 @@ example : (wTable.renderBody Flags.repaired (fun _ => 1) [1, 3]).map (fun l => S
 /-- **rows_in_order.**  Reading the body top to bottom and keeping only the lines that carry cells gives:
 all lines `0 … h₀-1` of row 0, then all lines of row 1, … — the rows in the order `zip(*columns)` yields them,
 each on lines of its own (a line belongs to exactly one row or is a separator), each row at least one line
-high.  For every table, every option, every width vector, today's code and repaired alike. -/
+high.  For every table, every option, every width vector, as-found code and repaired alike. -/
 theorem rows_in_order (fl : Flags) (t : Table) (widths : List Nat) :
     (t.renderBody fl cw widths).filterMap BodyLine.cellTag
       = t.rows.zipIdx.flatMap (fun ri => (List.range (shapeRow cw widths ri.1).1).map (fun k => (ri.2, k)))
@@ -293,7 +295,7 @@ theorem table_expand_exact_free (fl : Flags) (t : Table) (maxWidth : Int) (hexp 
   obtain ⟨ws, h1, h2, h3, _⟩ := table_expand_exact fl t maxWidth ws0 hexp hfl hne h0 hne0 hp (by rw [h0']; exact hfit)
   exact ⟨ws, h1, h2, by omega⟩
 
-/-- Witness: today `Table(expand=True, min_width=…)` with a small `min_width` does NOT expand — the pad target
+/-- Witness: in rich 9.10.0 as found (before fix c798468) `Table(expand=True, min_width=…)` with a small `min_width` does NOT expand — the pad target
 is `min(min_width - extra, max_width)`, below the natural width, so nothing is handed out. -/
 def wTableMin : Table :=
   { columns := [{ header := wCell ['a', 'b', 'c'], footer := wCell [], cells := [wCell ['1']] }],
@@ -302,7 +304,7 @@ def wTableMin : Table :=
 theorem old_expand_exact_fails : wTableMin.calcWidths Flags.today 10 = some [3] := by decide
 example : wTableMin.calcWidths Flags.repaired 10 = some [10] := by decide
 
-/-- Witness: today an expanding table with a ratio column next to a column that measures 0 (`Table.grid(expand=True)`,
+/-- Witness: in rich 9.10.0 as found (before fix b5d172f) an expanding table with a ratio column next to a column that measures 0 (`Table.grid(expand=True)`,
 `add_column(ratio=1)`, `add_column()`, `add_row("abc", "")`) is NOT expanded: 0 cells are reserved for the empty
 column, it gets 1 (`maximum or 1`), the table is one cell over, the collapse takes the cell back from the ratio
 column and the re-measure then shrinks that column to its content. -/
@@ -317,7 +319,7 @@ example : wTableRatio.calcWidths Flags.repaired 30 = some [29, 1] := by decide
 /-- **table_expand_exact (after collapsing).**  When the natural widths do NOT fit and every column may
 wrap, the collapsed widths sum to exactly `max_width`; if re-measuring the columns at those widths gives the
 same widths back (true of text cells: a cell that was cut to `w` measures `w` at `w`), the table — expanding
-or not, today's code or repaired — is exactly `max_width` wide. -/
+or not, as-found code or repaired — is exactly `max_width` wide. -/
 theorem table_exact_collapsed (fl : Flags) (t : Table) (maxWidth : Int) (hnr : t.NoRatio) (hfree : t.AllFree)
     (hne : t.columns ≠ []) (hnw : ∀ c ∈ t.columns, c.noWrap = false) (hmw : 0 ≤ maxWidth)
     (hover : maxWidth < (t.indexed.map (fun ci => orOne (t.measureColumn ci.2 ci.1 maxWidth).maximum)).sum)
@@ -478,7 +480,7 @@ theorem table_expand_exact_all (fl : Flags) (hst : fl.staleTableWidth = false) (
       omega
   · exact table_expand_exact_free fl t maxWidth hexp hfl hnr hfree hne (by rw [← h0']; omega)
 
-/-- Witness: today an expanding table whose ratio column was handed its flex minimum (1 + padding) and then collapsed is
+/-- Witness: before fix f955c6c (`Flags.repaired` leaves `staleTableWidth` on) an expanding table whose ratio column was handed its flex minimum (1 + padding) and then collapsed is
 re-measured down to its content and never padded again — 4 cells instead of 6. -/
 def wTableStale : Table :=
   { columns := [{ header := wCell ['a', 'a', 'a', 'a'], footer := wCell [], cells := [] },
@@ -517,7 +519,8 @@ theorem rich_measure_total (fl : Flags) (h1 : fl.noColumnsAsserts = false) (h2 :
     simp only [hws]
     exact ⟨_, rfl⟩
 
-/-- Witnesses (found by the C14 builder; `Flags.repaired` leaves these two defects as they are today): a table
+/-- Witnesses (found by the C14 builder; `Flags.repaired` leaves these two defects as they were in rich 9.10.0 as found;
+repaired in /repo by fixes 1d61bac and ab98098, `Flags.allRepaired`): a table
 without columns that expands / has a `width` / a `min_width` asserts … -/
 theorem old_no_columns_asserts :
     ({ columns := [], expandFlag := true } : Table).calcWidths Flags.repaired 20 = none ∧
